@@ -406,6 +406,7 @@ func (mc *ModbusClient) ReadDiscreteInput(addr uint16) (value bool, err error) {
 // Reads multiple 16-bit registers (function code 03 or 04).
 func (mc *ModbusClient) ReadRegisters(addr uint16, quantity uint16, regType RegType) (values []uint16, err error) {
 	var mbPayload	[]byte
+	var endianness	Endianness
 
 	// read quantity uint16 registers, as bytes
 	mbPayload, err	= mc.readRegisters(addr, quantity, regType)
@@ -414,7 +415,8 @@ func (mc *ModbusClient) ReadRegisters(addr uint16, quantity uint16, regType RegT
 	}
 
 	// decode payload bytes as uint16s
-	values	= bytesToUint16s(mc.endianness, mbPayload)
+	endianness, _ = mc.encoding()
+	values	= bytesToUint16s(endianness, mbPayload)
 
 	return
 }
@@ -435,6 +437,8 @@ func (mc *ModbusClient) ReadRegister(addr uint16, regType RegType) (value uint16
 // Reads multiple 32-bit registers.
 func (mc *ModbusClient) ReadUint32s(addr uint16, quantity uint16, regType RegType) (values []uint32, err error) {
 	var mbPayload	[]byte
+	var endianness	Endianness
+	var wordOrder	WordOrder
 
 	// read 2 * quantity uint16 registers, as bytes
 	mbPayload, err	= mc.readRegisters(addr, registerCount(quantity, 2), regType)
@@ -443,7 +447,8 @@ func (mc *ModbusClient) ReadUint32s(addr uint16, quantity uint16, regType RegTyp
 	}
 
 	// decode payload bytes as uint32s
-	values	= bytesToUint32s(mc.endianness, mc.wordOrder, mbPayload)
+	endianness, wordOrder = mc.encoding()
+	values	= bytesToUint32s(endianness, wordOrder, mbPayload)
 
 	return
 }
@@ -463,6 +468,8 @@ func (mc *ModbusClient) ReadUint32(addr uint16, regType RegType) (value uint32, 
 // Reads multiple 32-bit float registers.
 func (mc *ModbusClient) ReadFloat32s(addr uint16, quantity uint16, regType RegType) (values []float32, err error) {
 	var mbPayload	[]byte
+	var endianness	Endianness
+	var wordOrder	WordOrder
 
 	// read 2 * quantity uint16 registers, as bytes
 	mbPayload, err	= mc.readRegisters(addr, registerCount(quantity, 2), regType)
@@ -471,7 +478,8 @@ func (mc *ModbusClient) ReadFloat32s(addr uint16, quantity uint16, regType RegTy
 	}
 
 	// decode payload bytes as float32s
-	values	= bytesToFloat32s(mc.endianness, mc.wordOrder, mbPayload)
+	endianness, wordOrder = mc.encoding()
+	values	= bytesToFloat32s(endianness, wordOrder, mbPayload)
 
 	return
 }
@@ -491,6 +499,8 @@ func (mc *ModbusClient) ReadFloat32(addr uint16, regType RegType) (value float32
 // Reads multiple 64-bit registers.
 func (mc *ModbusClient) ReadUint64s(addr uint16, quantity uint16, regType RegType) (values []uint64, err error) {
 	var mbPayload	[]byte
+	var endianness	Endianness
+	var wordOrder	WordOrder
 
 	// read 4 * quantity uint16 registers, as bytes
 	mbPayload, err	= mc.readRegisters(addr, registerCount(quantity, 4), regType)
@@ -499,7 +509,8 @@ func (mc *ModbusClient) ReadUint64s(addr uint16, quantity uint16, regType RegTyp
 	}
 
 	// decode payload bytes as uint64s
-	values	= bytesToUint64s(mc.endianness, mc.wordOrder, mbPayload)
+	endianness, wordOrder = mc.encoding()
+	values	= bytesToUint64s(endianness, wordOrder, mbPayload)
 
 	return
 }
@@ -519,6 +530,8 @@ func (mc *ModbusClient) ReadUint64(addr uint16, regType RegType) (value uint64, 
 // Reads multiple 64-bit float registers.
 func (mc *ModbusClient) ReadFloat64s(addr uint16, quantity uint16, regType RegType) (values []float64, err error) {
 	var mbPayload	[]byte
+	var endianness	Endianness
+	var wordOrder	WordOrder
 
 	// read 4 * quantity uint16 registers, as bytes
 	mbPayload, err	= mc.readRegisters(addr, registerCount(quantity, 4), regType)
@@ -527,7 +540,8 @@ func (mc *ModbusClient) ReadFloat64s(addr uint16, quantity uint16, regType RegTy
 	}
 
 	// decode payload bytes as float64s
-	values	= bytesToFloat64s(mc.endianness, mc.wordOrder, mbPayload)
+	endianness, wordOrder = mc.encoding()
+	values	= bytesToFloat64s(endianness, wordOrder, mbPayload)
 
 	return
 }
@@ -767,10 +781,13 @@ func (mc *ModbusClient) WriteRegister(addr uint16, value uint16) (err error) {
 // Writes multiple 16-bit registers (function code 16).
 func (mc *ModbusClient) WriteRegisters(addr uint16, values []uint16) (err error) {
 	var payload	[]byte
+	var endianness	Endianness
+
+	endianness, _ = mc.encoding()
 
 	// turn registers to bytes
 	for _, value := range values {
-		payload	= append(payload, uint16ToBytes(mc.endianness, value)...)
+		payload	= append(payload, uint16ToBytes(endianness, value)...)
 	}
 
 	err = mc.writeRegisters(addr, payload)
@@ -781,10 +798,14 @@ func (mc *ModbusClient) WriteRegisters(addr uint16, values []uint16) (err error)
 // Writes multiple 32-bit registers.
 func (mc *ModbusClient) WriteUint32s(addr uint16, values []uint32) (err error) {
 	var payload	[]byte
+	var endianness	Endianness
+	var wordOrder	WordOrder
+
+	endianness, wordOrder = mc.encoding()
 
 	// turn registers to bytes
 	for _, value := range values {
-		payload	= append(payload, uint32ToBytes(mc.endianness, mc.wordOrder, value)...)
+		payload	= append(payload, uint32ToBytes(endianness, wordOrder, value)...)
 	}
 
 	err = mc.writeRegisters(addr, payload)
@@ -794,7 +815,12 @@ func (mc *ModbusClient) WriteUint32s(addr uint16, values []uint32) (err error) {
 
 // Writes a single 32-bit register.
 func (mc *ModbusClient) WriteUint32(addr uint16, value uint32) (err error) {
-	err = mc.writeRegisters(addr, uint32ToBytes(mc.endianness, mc.wordOrder, value))
+	var endianness	Endianness
+	var wordOrder	WordOrder
+
+	endianness, wordOrder = mc.encoding()
+
+	err = mc.writeRegisters(addr, uint32ToBytes(endianness, wordOrder, value))
 
 	return
 }
@@ -802,10 +828,14 @@ func (mc *ModbusClient) WriteUint32(addr uint16, value uint32) (err error) {
 // Writes multiple 32-bit float registers.
 func (mc *ModbusClient) WriteFloat32s(addr uint16, values []float32) (err error) {
 	var payload	[]byte
+	var endianness	Endianness
+	var wordOrder	WordOrder
+
+	endianness, wordOrder = mc.encoding()
 
 	// turn registers to bytes
 	for _, value := range values {
-		payload	= append(payload, float32ToBytes(mc.endianness, mc.wordOrder, value)...)
+		payload	= append(payload, float32ToBytes(endianness, wordOrder, value)...)
 	}
 
 	err = mc.writeRegisters(addr, payload)
@@ -815,7 +845,12 @@ func (mc *ModbusClient) WriteFloat32s(addr uint16, values []float32) (err error)
 
 // Writes a single 32-bit float register.
 func (mc *ModbusClient) WriteFloat32(addr uint16, value float32) (err error) {
-	err = mc.writeRegisters(addr, float32ToBytes(mc.endianness, mc.wordOrder, value))
+	var endianness	Endianness
+	var wordOrder	WordOrder
+
+	endianness, wordOrder = mc.encoding()
+
+	err = mc.writeRegisters(addr, float32ToBytes(endianness, wordOrder, value))
 
 	return
 }
@@ -823,10 +858,14 @@ func (mc *ModbusClient) WriteFloat32(addr uint16, value float32) (err error) {
 // Writes multiple 64-bit registers.
 func (mc *ModbusClient) WriteUint64s(addr uint16, values []uint64) (err error) {
 	var payload	[]byte
+	var endianness	Endianness
+	var wordOrder	WordOrder
+
+	endianness, wordOrder = mc.encoding()
 
 	// turn registers to bytes
 	for _, value := range values {
-		payload	= append(payload, uint64ToBytes(mc.endianness, mc.wordOrder, value)...)
+		payload	= append(payload, uint64ToBytes(endianness, wordOrder, value)...)
 	}
 
 	err = mc.writeRegisters(addr, payload)
@@ -836,7 +875,12 @@ func (mc *ModbusClient) WriteUint64s(addr uint16, values []uint64) (err error) {
 
 // Writes a single 64-bit register.
 func (mc *ModbusClient) WriteUint64(addr uint16, value uint64) (err error) {
-	err = mc.writeRegisters(addr, uint64ToBytes(mc.endianness, mc.wordOrder, value))
+	var endianness	Endianness
+	var wordOrder	WordOrder
+
+	endianness, wordOrder = mc.encoding()
+
+	err = mc.writeRegisters(addr, uint64ToBytes(endianness, wordOrder, value))
 
 	return
 }
@@ -844,10 +888,14 @@ func (mc *ModbusClient) WriteUint64(addr uint16, value uint64) (err error) {
 // Writes multiple 64-bit float registers.
 func (mc *ModbusClient) WriteFloat64s(addr uint16, values []float64) (err error) {
 	var payload	[]byte
+	var endianness	Endianness
+	var wordOrder	WordOrder
+
+	endianness, wordOrder = mc.encoding()
 
 	// turn registers to bytes
 	for _, value := range values {
-		payload	= append(payload, float64ToBytes(mc.endianness, mc.wordOrder, value)...)
+		payload	= append(payload, float64ToBytes(endianness, wordOrder, value)...)
 	}
 
 	err = mc.writeRegisters(addr, payload)
@@ -857,7 +905,12 @@ func (mc *ModbusClient) WriteFloat64s(addr uint16, values []float64) (err error)
 
 // Writes a single 64-bit float register.
 func (mc *ModbusClient) WriteFloat64(addr uint16, value float64) (err error) {
-	err = mc.writeRegisters(addr, float64ToBytes(mc.endianness, mc.wordOrder, value))
+	var endianness	Endianness
+	var wordOrder	WordOrder
+
+	endianness, wordOrder = mc.encoding()
+
+	err = mc.writeRegisters(addr, float64ToBytes(endianness, wordOrder, value))
 
 	return
 }
@@ -882,6 +935,17 @@ func (mc *ModbusClient) WriteRawBytes(addr uint16, values []byte) (err error) {
 }
 
 /*** unexported methods ***/
+// Returns the current encoding settings (endianness and word order).
+func (mc *ModbusClient) encoding() (endianness Endianness, wordOrder WordOrder) {
+	mc.lock.Lock()
+	defer mc.lock.Unlock()
+
+	endianness	= mc.endianness
+	wordOrder	= mc.wordOrder
+
+	return
+}
+
 // Returns the number of 16-bit registers spanned by quantity values of
 // regsPerValue registers each. Totals which do not fit 16 bits saturate at
 // 0xffff (always above protocol limits) instead of wrapping around.
@@ -897,7 +961,8 @@ func registerCount(quantity uint16, regsPerValue uint16) (count uint16) {
 
 // Reads one or multiple 16-bit registers (function code 03 or 04) as bytes.
 func (mc *ModbusClient) readBytes(addr uint16, quantity uint16, regType RegType, observeEndianness bool) (values []byte, err error) {
-	var regCount uint16
+	var regCount   uint16
+	var endianness Endianness
 
 	// read enough registers to get the requested number of bytes
 	// (2 bytes per reg)
@@ -910,7 +975,8 @@ func (mc *ModbusClient) readBytes(addr uint16, quantity uint16, regType RegType,
 
 	// swap bytes on register boundaries if requested by the caller
 	// and endianness is set to little endian
-	if observeEndianness && mc.endianness == LITTLE_ENDIAN {
+	endianness, _ = mc.encoding()
+	if observeEndianness && endianness == LITTLE_ENDIAN {
 		for i := 0; i < len(values); i += 2 {
 			values[i], values[i+1] = values[i+1], values[i]
 		}
@@ -926,6 +992,8 @@ func (mc *ModbusClient) readBytes(addr uint16, quantity uint16, regType RegType,
 
 // Writes the given slice of bytes to 16-bit registers starting at addr.
 func (mc *ModbusClient) writeBytes(addr uint16, values []byte, observeEndianness bool) (err error) {
+	var endianness Endianness
+
 	// work on a copy to leave the caller's slice (and its spare capacity) untouched
 	values = append(make([]byte, 0, len(values) + 1), values...)
 
@@ -936,7 +1004,8 @@ func (mc *ModbusClient) writeBytes(addr uint16, values []byte, observeEndianness
 
 	// swap bytes on register boundaries if requested by the caller
 	// and endianness is set to little endian
-	if observeEndianness && mc.endianness == LITTLE_ENDIAN {
+	endianness, _ = mc.encoding()
+	if observeEndianness && endianness == LITTLE_ENDIAN {
 		for i := 0; i < len(values); i += 2 {
 			values[i], values[i+1] = values[i+1], values[i]
 		}
